@@ -64,7 +64,7 @@ def strategy(tier):
   transport = st.fixed_dictionaries({
       'kind': st.just('transport'),
       'proto': st.sampled_from(['thriftmux', 'thriftmux', 'kafka']),
-      'ops': sized_list(weighted(*pairs), 0, 70),
+      'ops': sized_list(weighted(*pairs), 0, 70 if tier == 'quick' else 200),
   })
   pool = st.fixed_dictionaries({
       'kind': st.just('pool'),
